@@ -11,7 +11,7 @@ NODE_KINDS = [
 def gen_node(rng):
     n = copy.deepcopy(rng.choice(NODE_KINDS))
     if 'min' in n:
-        n['rep'] = False  # open-ended nodes stay non-repeating (the parallel limit would otherwise be undocumented)
+        n['rep'] = rng.random() < 0.3  # open-ended and repeating: bounded only by the parallel limit
     else:
         n['rep'] = rng.random() < 0.4
     return n
@@ -45,13 +45,47 @@ def gen_settings_spec(rng, max_n=3, p_patterns=0.5, degenerate=False):
             rng.shuffle(pats)
             pats = pats[:rng.randint(1, 4)]
             spec['patterns'] = pats
+    if rng.random() < 0.2:
+        spec['max_par'] = rng.choice([1, 2, 2, 3, 3])  # explicit limit on parallel connections (None: derived default)
     return spec
 
 
-def variant(rng, spec):
+def gen_parallel_spec(rng):
+    """Settings in which the limit on parallel connections binds: open-ended repeating nodes on both sides, one bounded
+    node with a large degree, and existence patterns in which that node is absent (the default limit is derived from the
+    nodes present)."""
+    src = [{'min': rng.choice([0, 1]), 'rep': True}]
+    tgt = [{'min': rng.choice([0, 1]), 'rep': True}]
+    big = {'conns': rng.choice([[0, 3], [1, 3], [3], [0, 1, 2, 3]]), 'rep': rng.random() < 0.5}
+    side = rng.choice(['src', 'tgt'])
+    (src if side == 'src' else tgt).append(big)
+    if rng.random() < 0.4:
+        (src if rng.random() < 0.5 else tgt).insert(0, gen_node(rng))
+    idx = (src if side == 'src' else tgt).index(big)
+    pats = [{'src': [True] * len(src), 'tgt': [True] * len(tgt)}, {'src': [True] * len(src), 'tgt': [True] * len(tgt)}]
+    pats[1][side][idx] = False
+    if rng.random() < 0.5:
+        pats.reverse()
+    spec = {'src': src, 'tgt': tgt, 'excluded': [], 'patterns': pats}
+    if rng.random() < 0.3:
+        spec['max_par'] = rng.choice([2, 3])
+    return spec
+
+
+def variant(rng, spec, kinds=None):
     """A setting that differs from `spec` in exactly one attribute (for the cache-key clause)."""
     s = copy.deepcopy(spec)
-    kind = rng.choice(['degree', 'rep', 'exclude', 'pattern', 'transpose', 'permute_patterns', 'permute_patterns'])
+    kind = rng.choice(kinds or ['degree', 'rep', 'exclude', 'pattern', 'transpose', 'permute_patterns',
+                                'permute_patterns', 'max_par'])
+    if kind == 'max_par':
+        # unset <-> explicit: the explicit value equal to the default derived from ALL nodes is the interesting one
+        # (equal behaviour when every node is present, different behaviour in patterns that lack the largest node)
+        glob = max([2] + [max(n['conns']) for side in ('src', 'tgt') for n in s[side] if 'conns' in n])
+        if s.get('max_par') is None:
+            s['max_par'] = rng.choice([glob, glob, glob, 1, 2, 3])
+        else:
+            s['max_par'] = rng.choice([None, None, s['max_par'] + 1, max(1, s['max_par'] - 1)])
+        return s if s != spec else variant(rng, spec)
     if kind == 'permute_patterns':
         # the same existence patterns in another order: a different setting (patterns are addressed by index)
         if not s['patterns'] or len(s['patterns']) < 2:
@@ -92,7 +126,8 @@ def variant(rng, spec):
                              {'src': [False] + [True] * (len(s['src']) - 1), 'tgt': [True] * len(s['tgt'])}]
     else:
         s = {'src': s['tgt'], 'tgt': s['src'], 'excluded': [[j, i] for i, j in s['excluded']],
-             'patterns': None if not s['patterns'] else [{'src': p['tgt'], 'tgt': p['src']} for p in s['patterns']]}
+             'patterns': None if not s['patterns'] else [{'src': p['tgt'], 'tgt': p['src']} for p in s['patterns']],
+             **({'max_par': s['max_par']} if s.get('max_par') is not None else {})}
     if s == spec:
         return variant(rng, spec)
     return s
@@ -112,8 +147,9 @@ def build(spec):
     excluded = [(src[i], tgt[j]) for i, j in spec.get('excluded', [])] or None
     if spec.get('patterns'):
         exist = [NodeExistence(src_exists=list(p['src']), tgt_exists=list(p['tgt'])) for p in spec['patterns']]
-        settings = MatrixGenSettings(src, tgt, excluded=excluded, existence=NodeExistencePatterns(patterns=exist))
+        settings = MatrixGenSettings(src, tgt, excluded=excluded, existence=NodeExistencePatterns(patterns=exist),
+                                     max_conn_parallel=spec.get('max_par'))
     else:
         exist = [NodeExistence()]
-        settings = MatrixGenSettings(src, tgt, excluded=excluded)
+        settings = MatrixGenSettings(src, tgt, excluded=excluded, max_conn_parallel=spec.get('max_par'))
     return settings, exist
